@@ -508,6 +508,19 @@ def workload(ctx):
             ctx.sample("non-affine", str(e2))
         for names in (["x", "y"], None, [], frozenset()):
             ctx.run("C15.collect", (e2, names, False))
+    # the operators that LOOK like a division by a constant: floor division and remainder of
+    # a target are not affine in it
+    x_, y_, u_ = p.Variable("x"), p.Variable("y"), p.Variable("u")
+    for R in (p.FloorDiv, p.Remainder):
+        for inner in (R(p.Sum((x_, 1)), 2), R(x_, 3), R(y_, x_), R(p.Product((2, x_)), 2), R(7, x_),
+                      R(p.Sum((x_, y_)), u_), R(R(x_, 4), 2)):
+            for e2 in (inner, p.Sum((u_, inner)), p.Product((3, inner)), p.Sum((p.Product((2, y_)), inner, 1)),
+                       p.Quotient(inner, 2), p.Product((u_, p.Sum((inner, y_))))):
+                if ctx.mine("floor-rem"):
+                    ctx.case(("floor-rem", normal.typed_key(e2)), True, n=0)
+                    ctx.count("floor_division_and_remainder_of_targets")
+                    for names in (["x", "y"], None, ["x"], ("x",)):
+                        ctx.run("C15.collect", (e2, names, False))
     kinds = ["plain", "plain", "dup", "scaled-dup", "contradict", "dup-then-contradict", "under",
              "nonintegral", "missing"]
     for i in range(ctx.per_shard(ctx.pick(2500, 50000))):
@@ -523,6 +536,7 @@ def workload(ctx):
         rhs = [[rng.randint(-4, 4) for _ in range(2)] for _ in m]
         ctx.run("C15.gauss", (m, rhs))
     ctx.floor("collector_calls", 10000)
+    ctx.floor("floor_division_and_remainder_of_targets", 60)
     ctx.floor("system:dup-then-contradict", 100)
     ctx.floor("collector_retargeted", 5000)
     ctx.floor("nonaffine_inputs", 2000)
